@@ -50,6 +50,14 @@ impl<'a, A: ?Sized + AuthorityImpl> AuthorityMutImpl<'a, A> {
 
 	#[inline]
 	pub fn set_userinfo(&mut self, userinfo: Option<&A::UserInfo>) {
+		#[cfg(iref_verif)]
+		let span = crate::verif_trace::enter::<A>(
+			"set_userinfo",
+			self.start == 0,
+			self.data,
+			userinfo.map(|u| u.as_bytes()),
+		);
+
 		let bytes = &self.data[..self.end];
 
 		match userinfo {
@@ -66,17 +74,39 @@ impl<'a, A: ?Sized + AuthorityImpl> AuthorityMutImpl<'a, A> {
 				}
 			}
 		}
+
+		#[cfg(iref_verif)]
+		span.exit(self.data);
 	}
 
 	#[inline]
 	pub fn set_host(&mut self, host: &A::Host) {
+		#[cfg(iref_verif)]
+		let span = crate::verif_trace::enter::<A>(
+			"set_host",
+			self.start == 0,
+			self.data,
+			Some(host.as_bytes()),
+		);
+
 		let bytes = &self.data[..self.end];
 		let range = parse::find_host(bytes, self.start);
 		self.splice(range, host.as_bytes());
+
+		#[cfg(iref_verif)]
+		span.exit(self.data);
 	}
 
 	#[inline]
 	pub fn set_port(&mut self, port: Option<&Port>) {
+		#[cfg(iref_verif)]
+		let span = crate::verif_trace::enter::<A>(
+			"set_port",
+			self.start == 0,
+			self.data,
+			port.map(|p| p.as_bytes()),
+		);
+
 		let bytes = &self.data[..self.end];
 		match port {
 			Some(new_port) => match parse::find_port(bytes, self.start) {
@@ -92,6 +122,9 @@ impl<'a, A: ?Sized + AuthorityImpl> AuthorityMutImpl<'a, A> {
 				}
 			}
 		}
+
+		#[cfg(iref_verif)]
+		span.exit(self.data);
 	}
 }
 
